@@ -889,13 +889,13 @@ def gen_lqibe(rng, n, tier):
     S = WkScenario(rng); L = S.L
     L.append("lq_setup %s" % S.stream(49 * 60)); nP = 1; nM = 1
     msks = [0]
-    for sval in (R, R + 5, (1 << 256) - 1, 0, 1):
+    for sval in (R, R + 5, (1 << 256) - 1, 0, 1, 1 << 255, (1 << 255) + 5, 2 * R + 3, R - 1):
         L.append("lq_msk %s" % sval.to_bytes(32, "little").hex()); msks.append(nM); nM += 1
     ids = []
     for h in [bytes(rng.getrandbits(8) for _ in range(48)) for _ in range(max(2, n // 3))] + [b"\x00" * 48, b"\xff" * 48]:
         L.append("lq_id %s" % h.hex()); ids.append(len(ids))
     nS = 0; nC = 0
-    for m in msks[:3] + [msks[-1]]:
+    for m in msks:
         for i in ids[:2]:
             L.append("lq_keygen %d %d" % (m, i)); nS += 1
     # encrypt/decrypt with the matching key (master 0), all lengths incl. 0
